@@ -115,7 +115,7 @@ func genC18(repo string) (string, error) {
 		"SetLabelPropertyConfig", "SetLabelProperty", "DeleteLabelProperty", "SetClusterVersion", "SetReplicationModeConfig", "GetScheduleConfig",
 		"GetReplicationConfig", "GetPDServerConfig", "GetLabelPropertyConfig", "GetClusterVersion", "GetReplicationModeConfig", "Initialize", "GetRule",
 		"SetRule", "IsClientURL", "NormalizeReplicationMode", "UpdateConfig", "ParseVersion", "CheckInDefaultRule"),
-		Assigns: set("Count", "LocationLabels", "SchedulersPayload", "rule", "DashboardAddress")}
+		Assigns: set("Count", "LocationLabels", "SchedulersPayload", "rule", "DashboardAddress", "ReplicationMode")}
 	for _, fn := range []string{"SetScheduleConfig", "SetReplicationConfig", "SetPDServerConfig", "SetLabelProperty", "DeleteLabelProperty",
 		"SetClusterVersion", "SetReplicationModeConfig"} {
 		if err := o.skeleton(sf, "Server", fn, "skel_"+fn, sopt); err != nil {
